@@ -8,7 +8,9 @@
 (*                                                                                                *)
 (*   pools     "S" Sapling, "O" Orchard, "I" Ironwood, always considered in this order            *)
 (*   prior     [k |-> "none"]  or  [k |-> "some", h, hash, sz : [pool -> Nat or Unknown]]         *)
-(*   block     [h, hash, prev, act : [pool -> BOOLEAN]  (pool activated at height h),             *)
+(*   block     [h, hash, prev, bad (a header-level field that cannot be parsed: "none", or         *)
+(*              "txid_len" "hash_len" "prev_len" "height_big" "txindex_big"),                      *)
+(*              act : [pool -> BOOLEAN]  (pool activated at height h),                            *)
 (*              meta : [k |-> "absent"] or [k |-> "given", sz : [pool -> Nat]],                   *)
 (*              txs : Seq([pool -> [sp : Seq(Spend), out : Seq(Out)]])]                           *)
 (*   Out       [o |-> owner, v |-> value, n |-> note id (0: none)],                               *)
@@ -67,11 +69,18 @@ Malformed(b) ==
 
 Opt(c, x) == IF c THEN << x >> ELSE << >>
 
+\* A header-level field of the block or of one of its transactions has the wrong length or does not
+\* fit its type (txid, block hash, previous hash - looked at only when there is a prior block -,
+\* height >= 2^32, transaction index >= 2^16).  The block must be rejected; the error class is not
+\* specified (ScanError has no variant that names these fields), so the comparison accepts any.
+HeaderMalformed(prior, b) == b.bad # "none" /\ (b.bad = "prev_len" => prior.k = "some")
+
 \* every defect class the block exhibits, in the order the scanner is documented to look:
 \* continuity of height, then of hash; the start sizes pool by pool; the encodings while walking the
 \* transactions; the end-of-block consistency pool by pool.
 Defects(prior, b) ==
-    Opt(HeightErr(prior, b), "BlockHeightDiscontinuity")
+    Opt(HeaderMalformed(prior, b), "MalformedHeader")
+    \o Opt(HeightErr(prior, b), "BlockHeightDiscontinuity")
     \o Opt(HashErr(prior, b), "PrevHashMismatch")
     \o Opt(~StartOf(prior, b, "S").ok, StartOf(prior, b, "S").err)
     \o Opt(~StartOf(prior, b, "O").ok, StartOf(prior, b, "O").err)
@@ -233,8 +242,9 @@ ThmPartitionR(r, b, keys, tracked) ==
 \* rejected iff some defect; continuity precedes everything and height precedes hash
 ThmErrorsR(r, prior, b) ==
     /\ r.ok <=> Defects(prior, b) = << >>
-    /\ HeightErr(prior, b) => ~r.ok /\ r.err = "BlockHeightDiscontinuity"
-    /\ (~HeightErr(prior, b) /\ HashErr(prior, b)) => ~r.ok /\ r.err = "PrevHashMismatch"
+    /\ HeaderMalformed(prior, b) => ~r.ok /\ r.err = "MalformedHeader"
+    /\ (~HeaderMalformed(prior, b) /\ HeightErr(prior, b)) => ~r.ok /\ r.err = "BlockHeightDiscontinuity"
+    /\ (~HeaderMalformed(prior, b) /\ ~HeightErr(prior, b) /\ HashErr(prior, b)) => ~r.ok /\ r.err = "PrevHashMismatch"
     /\ (prior.k = "none") => (r.ok \/ r.err \notin { "BlockHeightDiscontinuity", "PrevHashMismatch" })
     /\ (~r.ok /\ r.err = "TreeSizeMismatch") => b.meta.k = "given"
     /\ (~r.ok /\ r.err \in { "TreeSizeUnknown", "TreeSizeInvalid" }) => \E p \in Pools : PriorSize(prior, p) = Unknown
